@@ -6,6 +6,7 @@ from collections.abc import Sequence
 from types import EllipsisType
 from typing import Any
 
+from pydiverse.transform._internal.errors import DataTypeError
 from pydiverse.transform._internal.tree import types
 from pydiverse.transform._internal.tree.types import Dtype, Tyvar
 
@@ -125,7 +126,14 @@ def best_signature_match(sig: Sequence[Dtype], candidates: Sequence[Sequence[Dty
             best_index = i + 1
             best_distance = this_distance
 
-    assert sum(int(best_distance == sig_distance(sig, match)) for match in candidates) == 1
+    ties = [match for match in candidates if sig_distance(sig, match) == best_distance]
+    if len(ties) != 1:
+        # e.g. a null-typed argument converts to every type at the same cost
+        raise DataTypeError(
+            f"ambiguous types: arguments of type ({', '.join(str(t) for t in sig)}) match the signatures "
+            + " and ".join("(" + ", ".join(str(t) for t in match) + ")" for match in ties)
+            + " equally well\nhint: cast the arguments (e.g. a `None` literal) to the intended type."
+        )
     return best_index
 
 
